@@ -313,19 +313,52 @@ def rule_ovf(env, shared):
                         bounded = oprover(m, env, e).le(am, Lc)
                 elif kind == "ticket":
                     bounded = True
-                if bounded and kind == "known" and am[0] != "int" and Lt is not None:
+                if kind == "known" and Lt is not None and (bounded or am[0] == "int"):
+                    if Lc is None:
+                        obj = None
+                        t0 = unref(e.info["place"])
+                        while t0[0] == "field":
+                            if len(t0) > 4 and t0[4] == adt and t0[2] == env.R.impl[adt].get("pos"):
+                                obj = t0[1]
+                                break
+                            t0 = t0[1]
+                        Lc = m.canon(r_m1.subst_self(Lt, obj)) if obj is not None else None
+                        if Lc is not None:
+                            Lc = rewrite(Lc, lambda x: x[1][1] if x[0] == "deref" and x[1][0] == "ref" else None)
                     # bounded amounts still add up: an exhausted iterator must not be advanced at all, otherwise polling it
                     # usize::MAX / LEN times after the end wraps the counter back to delivered positions
                     kw = "OVF.wrap|%s|%s" % (env.sname(adt), env.fname(top_body))
                     pl = unref(e.info["place"])
                     guarded = False
+                    rest = False
                     Lc2 = Lc
-                    for f in oprover(m, env, e).facts:
+                    op_ = oprover(m, env, e)
+                    for f in op_.facts:
                         if f[0] == "lt" and len(f) == 3 and f[1][0] == "atomic" and f[1][1] == "load" \
                                 and m.canon(unref(f[1][2])) == m.canon(pl) and Lc2 is not None and f[2] == Lc2:
                             guarded = True
-                    if guarded:
-                        put(Ob("OVF.wrap", kw, "ok", e.loc(), "the counter is advanced only while it is below LEN", True))
+                            # ... and by no more than what is left from the position that was seen: a single-threaded
+                            # history then never moves the counter beyond LEN, whatever LEN is
+                            if am[0] == "int" or op_.le(am, ("bin", "Sub", Lc2, f[1])):
+                                rest = True
+                    if not guarded and am[0] == "int":
+                        # a constant step may instead be guarded by saturation: the counter is not advanced once it reads
+                        # usize::MAX (the calls made after the end are still counted, but the counter cannot wrap)
+                        for f in op_.facts:
+                            if f[0] == "ne" and len(f) == 3:
+                                for x, y in ((f[1], f[2]), (f[2], f[1])):
+                                    if x[0] == "atomic" and x[1] == "load" and m.canon(unref(x[2])) == m.canon(pl) \
+                                            and y[0] == "int" and y[1] >= 18446744073709551615:
+                                        guarded = rest = True
+                    if guarded and not rest:
+                        put(Ob("OVF.wrap", kw, "viol", e.loc(),
+                               "a pull of %s advances the position counter by up to LEN although the counter may already be "
+                               "close to LEN: for a source longer than usize::MAX / 2 the sum wraps (0..(1<<63)+2 pulled with "
+                               "chunk sizes len-1, len: the second pull wraps the counter and the third delivers positions "
+                               "again); the amount must be clamped to LEN minus the position read before" % env.sname(adt)))
+                    elif guarded:
+                        put(Ob("OVF.wrap", kw, "ok", e.loc(), "the counter is advanced only while it is below LEN, and by no more "
+                               "than what is left", True))
                     else:
                         put(Ob("OVF.wrap", kw, "viol", e.loc(),
                                "every pull of %s advances the position counter by up to LEN even when the source is exhausted; "
